@@ -3150,6 +3150,17 @@ _dbus_poll (DBusPollFD *fds,
       timeout_milliseconds = -1;
     }
 
+#ifdef DBUS_VERIF
+  if (_dbus_verif_sync_hook != NULL)
+    {
+      int verif_result = 0;
+
+      if (_dbus_verif_sync_hook (DBUS_VERIF_OP_POLL, fds, NULL, n_fds,
+                                 timeout_milliseconds, &verif_result))
+        return verif_result;
+    }
+#endif
+
   return poll (fds,
                n_fds,
                timeout_milliseconds);
@@ -3212,6 +3223,8 @@ _dbus_poll (DBusPollFD *fds,
 #ifdef DBUS_VERIF
 /* Verification hook: when set, replaces both clocks (which: 0 monotonic, 1 real). */
 void (*_dbus_verif_clock_hook) (int which, long *tv_sec, long *tv_usec) = NULL;
+/* Verification hook: scheduling points (see dbus-sysdeps.h). */
+int (*_dbus_verif_sync_hook) (int op, void *obj, void *obj2, int arg, int arg2, int *result) = NULL;
 #endif
 
 /**
